@@ -21,11 +21,13 @@ RULE = (
     "elements of which a proper non-empty subset is unresolvable/duplicate, or a multi-ID "
     "roElementAction DELETE/MOVE list; distinct = distinct (state text, message text) digests.")
 ASSUMPTIONS = [
-    'IDs inside one message are distinct (repeated IDs are ambiguous: excluded, counted)',
+    'repeated IDs in a delete list: every occurrence of an ID that is not in the running order needs its own '
+    'warning; a repeated occurrence of an ID that was there may or may not be reported.  Repeated / '
+    'self-referential IDs in moves and swaps are ambiguous and excluded (counted)',
     'a blank ID in a list may or may not produce a not-found warning (both accepted)',
     'warning text is not inspected, only category and count',
 ]
-MANDATORY = ['StoryDelete:partial-miss', 'EAStoryDelete:partial-miss', 'ItemDelete:partial-miss',
+MANDATORY = ['StoryDelete:repeated-id-in-list', 'EAItemDelete:repeated-id-in-list', 'StoryDelete:partial-miss', 'EAStoryDelete:partial-miss', 'ItemDelete:partial-miss',
              'EAItemDelete:partial-miss', 'StoryInsert:duplicate-skipped',
              'EAStoryInsert:duplicate-skipped', 'EAStoryDelete:multi-id-delete',
              'EAItemDelete:multi-id-delete', 'EAStoryMove:multi-source', 'subset-enumeration',
@@ -82,6 +84,10 @@ def shard_subsets(args):
             if n == 1:
                 body = [B.P('x')]
                 msgs.append(B.story_send('RO1', s_ids[0], body=body))
+            if n <= 3:
+                # the same ID named twice (first and last position)
+                msgs += [B.story_delete('RO1', s_ids + s_ids[:1]), B.ea_story_delete('RO1', s_ids + s_ids[:1]),
+                         B.item_delete('RO1', 'S1', i_ids + i_ids[:1]), B.ea_item_delete('RO1', 'S3', i_ids + i_ids[:1])]
             for body in msgs:
                 ev = drive.eval_step({'ro_xml': ro_xml, 'msg_xml': env(body)})
                 record(col, ev, extra=['subset-enumeration'])
@@ -100,7 +106,7 @@ def run(tier, seed, procs):
     refs = ['TGT', '', 'ZZ-unknown-story']
     cols += drive.pool_map(drive.shard_enum_item,
                            [(MOD, m, 'mixed', K, pos, refs) for m in range(0, M + 1) for pos in (0, 1)], procs)
-    kw = dict(kinds=gen.STORY_KINDS + gen.ITEM_KINDS + gen.META_KINDS[:3], faults='some', rich=True, degenerate=False,
+    kw = dict(kinds=gen.STORY_KINDS + gen.ITEM_KINDS + gen.META_KINDS[:3], faults='some', rich=True, degenerate=True,
               min_stories=1)
     shards, per = (8, 400) if quick else (16, 15000)
     cols += drive.pool_map(drive.shard_hyp_steps,
